@@ -21,7 +21,7 @@ from bitarray.util import int2ba, ba2int
 from common import impl_error
 
 PROP = "C03"
-MODULES = ["C03"]
+MODULES = ["C03", "C03a", "C03b"]
 GEN = ["Elements"]
 MATCHERS = {}
 
@@ -354,8 +354,390 @@ def mk_csbk_kind():
     return k
 
 
+class UNZ(U):
+    """unsigned integer of w bits, never 0"""
+
+    def rand(self, rng):
+        return rng.randrange(1, 1 << self.w)
+
+    def specials(self, rng):
+        return [v for v in super().specials(rng) if v != 0]
+
+
+class VBITS:
+    """bit string of variable length 0..n"""
+
+    def __init__(self, n):
+        self.n = n
+
+    def rand(self, rng):
+        k = rng.randrange(self.n + 1)
+        return int2ba(rng.getrandbits(k), length=k).to01() if k else ""
+
+    def specials(self, rng):
+        return ["", "0", "1", "0" * self.n, "1" * self.n, "1" + "0" * (self.n - 1)]
+
+
+class CHOICE:
+    def __init__(self, spec_a, spec_b):
+        self.a, self.b = spec_a, spec_b
+
+    def rand(self, rng):
+        return (self.a if rng.random() < 0.5 else self.b).rand(rng)
+
+    def specials(self, rng):
+        return self.a.specials(rng) + self.b.specials(rng)
+
+
+def cross_variant_defaults(kind, carried, rng_seed=0):
+    """attribute -> value it has in an object of a variant that does not carry it (the constructor default)"""
+    import random
+
+    rng = random.Random(rng_seed)
+    objs = {}
+    for var in kind.variants:
+        vals = var.random_vals(rng)
+        if var.fix:
+            vals = var.fix(vals)
+        objs[var.name] = attrs(var.build(vals))
+    d = {}
+    for vname, a in objs.items():
+        for k, v in a.items():
+            if k not in carried[vname] and k not in d:
+                d[k] = v
+    return d
+
+
+def mk_dh_kind():
+    from okdmr.dmrlib.etsi.layer2.pdu.data_header import DataHeader
+    from okdmr.dmrlib.etsi.layer2.elements.data_packet_formats import DataPacketFormats as D
+    from okdmr.dmrlib.etsi.layer2.elements.sap_identifier import SAPIdentifier
+    from okdmr.dmrlib.etsi.layer2.elements.full_message_flag import FullMessageFlag
+    from okdmr.dmrlib.etsi.layer2.elements.resynchronize_flag import ResynchronizeFlag
+    from okdmr.dmrlib.etsi.layer2.elements.defined_data_formats import DefinedDataFormats
+    from okdmr.dmrlib.etsi.layer2.elements.sarq import SARQ
+    from okdmr.dmrlib.etsi.layer2.elements.udt_format import UDTFormat
+    from okdmr.dmrlib.etsi.layer2.elements.supplementary_flag import SupplementaryFlag
+    from okdmr.dmrlib.etsi.layer2.elements.csbk_opcodes import CsbkOpcodes
+    from okdmr.dmrlib.etsi.layer3.elements.udt_option_flag import UDTOptionFlag
+
+    hdr = [("crc", BITS(16))]
+    common_attrs = {"data_packet_format", "crc"}
+    table = [
+        ("confirmed", D.DataPacketConfirmed,
+         [("G", B()), ("A", B()), ("poc", U(5)), ("sap", E(SAPIdentifier)), ("dst", U(24)), ("src", U(24)), ("fmf", E(FullMessageFlag)),
+          ("btf", U(7)), ("rsf", E(ResynchronizeFlag)), ("ns", U(3)), ("fsn", U(4))],
+         lambda v: dict(is_group=v["G"], is_response_requested=v["A"], pad_octet_count=v["poc"], sap_identifier=SAPIdentifier(v["sap"]),
+                        llid_destination=v["dst"], llid_source=v["src"], full_message_flag=FullMessageFlag(v["fmf"]), blocks_to_follow=v["btf"],
+                        resynchronize_flag=ResynchronizeFlag(v["rsf"]), send_sequence_number=v["ns"], fragment_sequence_number=v["fsn"]),
+         lambda o: [b01(o.is_group), b01(o.is_response_requested), o.pad_octet_count, o.sap_identifier.value, o.llid_destination, o.llid_source,
+                    o.full_message_flag.value, o.blocks_to_follow, o.resynchronize_flag.value, o.send_sequence_number, o.fragment_sequence_number.value],
+         ["is_group", "is_response_requested", "pad_octet_count", "sap_identifier", "llid_destination", "llid_source", "full_message_flag",
+          "blocks_to_follow", "resynchronize_flag", "send_sequence_number", "fragment_sequence_number"]),
+        ("unconfirmed", D.DataPacketUnconfirmed,
+         [("G", B()), ("A", B()), ("poc", U(5)), ("sap", E(SAPIdentifier)), ("dst", U(24)), ("src", U(24)), ("fmf", E(FullMessageFlag)),
+          ("btf", U(7)), ("fsn", U(4))],
+         lambda v: dict(is_group=v["G"], is_response_requested=v["A"], pad_octet_count=v["poc"], sap_identifier=SAPIdentifier(v["sap"]),
+                        llid_destination=v["dst"], llid_source=v["src"], full_message_flag=FullMessageFlag(v["fmf"]), blocks_to_follow=v["btf"],
+                        fragment_sequence_number=v["fsn"]),
+         lambda o: [b01(o.is_group), b01(o.is_response_requested), o.pad_octet_count, o.sap_identifier.value, o.llid_destination, o.llid_source,
+                    o.full_message_flag.value, o.blocks_to_follow, o.fragment_sequence_number.value],
+         ["is_group", "is_response_requested", "pad_octet_count", "sap_identifier", "llid_destination", "llid_source", "full_message_flag",
+          "blocks_to_follow", "fragment_sequence_number"]),
+        ("response", D.ResponsePacket,
+         [("A", B()), ("sap", E(SAPIdentifier)), ("dst", U(24)), ("src", U(24)), ("fmf", E(FullMessageFlag)), ("btf", U(7)),
+          ("cls", U(2)), ("typ", U(3)), ("status", U(3))],
+         lambda v: dict(is_response_requested=v["A"], sap_identifier=SAPIdentifier(v["sap"]), llid_destination=v["dst"], llid_source=v["src"],
+                        full_message_flag=FullMessageFlag(v["fmf"]), blocks_to_follow=v["btf"], response_class=v["cls"], response_type=v["typ"],
+                        response_status=v["status"]),
+         lambda o: [b01(o.is_response_requested), o.sap_identifier.value, o.llid_destination, o.llid_source, o.full_message_flag.value,
+                    o.blocks_to_follow, o.response_class, o.response_type, o.response_status],
+         ["is_response_requested", "sap_identifier", "llid_destination", "llid_source", "full_message_flag", "blocks_to_follow",
+          "response_class", "response_type", "response_status"]),
+        ("shortDataDefined", D.ShortDataDefined,
+         [("G", B()), ("A", B()), ("ab", U(6)), ("sap", E(SAPIdentifier)), ("dst", U(24)), ("src", U(24)), ("ddf", E(DefinedDataFormats)),
+          ("sarq", E(SARQ)), ("fmf", E(FullMessageFlag)), ("pad", BITS(8))],
+         lambda v: dict(is_group=v["G"], is_response_requested=v["A"], appended_blocks=v["ab"], sap_identifier=SAPIdentifier(v["sap"]),
+                        llid_destination=v["dst"], llid_source=v["src"], defined_data_format=DefinedDataFormats(v["ddf"]), sarq=SARQ(v["sarq"]),
+                        full_message_flag=FullMessageFlag(v["fmf"]), bit_padding=bitarray(v["pad"])),
+         lambda o: [b01(o.is_group), b01(o.is_response_requested), o.appended_blocks, o.sap_identifier.value, o.llid_destination, o.llid_source,
+                    o.defined_data_format.value, o.sarq.value, o.full_message_flag.value, sbits(o.bit_padding)],
+         ["is_group", "is_response_requested", "appended_blocks", "sap_identifier", "llid_destination", "llid_source", "defined_data_format",
+          "sarq", "full_message_flag", "bit_padding"]),
+        ("udt", D.UnifiedDataTransport,
+         [("G", B()), ("A", B()), ("Em", B()), ("of", E(UDTOptionFlag)), ("sap", E(SAPIdentifier)), ("fmt", E(UDTFormat)), ("dst", U(24)),
+          ("src", U(24)), ("pn", U(5)), ("ab", U(2)), ("sf", E(SupplementaryFlag)), ("op", E(CsbkOpcodes))],
+         lambda v: dict(is_group=v["G"], is_response_requested=v["A"], is_emergency=v["Em"], udt_option_flag=UDTOptionFlag(v["of"]),
+                        sap_identifier=SAPIdentifier(v["sap"]), udt_format=UDTFormat(v["fmt"]), llid_destination=v["dst"], llid_source=v["src"],
+                        pad_nibbles_count=v["pn"], appended_blocks=v["ab"], supplementary_flag=SupplementaryFlag(v["sf"]),
+                        udt_opcode=CsbkOpcodes(v["op"])),
+         lambda o: [b01(o.is_group), b01(o.is_response_requested), b01(o.is_emergency), o.udt_option_flag.value, o.sap_identifier.value,
+                    o.udt_format.value, o.llid_destination, o.llid_source, o.pad_nibbles_count, o.appended_blocks, o.supplementary_flag.value,
+                    o.udt_opcode.value],
+         ["is_group", "is_response_requested", "is_emergency", "udt_option_flag", "sap_identifier", "udt_format", "llid_destination",
+          "llid_source", "pad_nibbles_count", "appended_blocks", "supplementary_flag", "udt_opcode"]),
+    ]
+    by_dpf = {t[1]: t for t in table}
+
+    def fmt(o, crc=None):
+        t = by_dpf[o.data_packet_format]
+        c = sbits(o.crc) if crc is None else sbits(crc)
+        return " ".join([c, t[0], ",".join(str(x) for x in t[4](o))])
+
+    k = Kind("dh", 96, DataHeader.from_bits, fmt, errors=["ValueError", "NotImplementedError"])
+    for name, dpf, fields, kw, _a, _n in table:
+        k.variants.append(Variant(k, name, hdr + fields, (lambda v, dpf=dpf, kw=kw: DataHeader(dpf=dpf, crc=bitarray(v["crc"]), **kw(v)))))
+    carried = {t[0]: set(t[5]) | common_attrs for t in table}
+    defaults = cross_variant_defaults(k, carried)
+
+    def extra(o):
+        t = by_dpf.get(o.data_packet_format)
+        if t is None:
+            return None
+        a = attrs(o)
+        bad = [x for x in a if x not in carried[t[0]] and x in defaults and a[x] != defaults[x]]
+        return ("non-default unrelated attributes " + ",".join(bad)) if bad else None
+
+    k.extra_check = extra
+    dpfs = [t[1].value for t in table]
+
+    def seeds(rng):
+        b = int2ba(rng.getrandbits(96), length=96)
+        if rng.random() < 0.85:
+            b[4:8] = int2ba(rng.choice(dpfs), length=4)
+        if ba2int(b[4:8]) == 0 and rng.random() < 0.7:
+            b[74:80] = int2ba(rng.choice([m.value for m in CsbkOpcodes]), length=6)
+        if rng.random() < 0.15:
+            b[80:96] = 0
+        return b
+
+    k.bit_seeds = seeds
+    return k
+
+
+GPS_LON = 360 / 2**25
+GPS_LAT = 180 / 2**24
+
+
+def gps_raw(x, step):
+    r = x / step
+    return int(r) if r == int(r) else repr(r)
+
+
+def mk_flc_kind():
+    from okdmr.dmrlib.etsi.layer2.pdu.full_link_control import FullLinkControl
+    from okdmr.dmrlib.etsi.layer2.elements.flcos import FLCOs
+    from okdmr.dmrlib.etsi.layer2.elements.feature_set_ids import FeatureSetIDs
+    from okdmr.dmrlib.etsi.layer3.elements.position_error import PositionError
+    from okdmr.dmrlib.etsi.layer3.elements.talker_alias_data_format import TalkerAliasDataFormat
+
+    hdr = [("pf", B()), ("fid", E(FeatureSetIDs)), ("crc", CHOICE(BITS(24), BITS(5)))]
+    table = [
+        ("unitToUnit", [FLCOs.UnitToUnitVoiceChannelUser], so_fields() + [("tgt", U(24)), ("src", U(24))],
+         lambda v: dict(service_options=so_build(v), target_address=v["tgt"], source_address=v["src"]),
+         lambda o: so_args(o.service_options) + [o.target_address, o.source_address],
+         ["service_options", "target_address", "source_address"]),
+        ("group", [FLCOs.GroupVoiceChannelUser], so_fields() + [("grp", U(24)), ("src", U(24))],
+         lambda v: dict(service_options=so_build(v), group_address=v["grp"], source_address=v["src"]),
+         lambda o: so_args(o.service_options) + [o.group_address, o.source_address],
+         ["service_options", "group_address", "source_address"]),
+        ("gpsInfo", [FLCOs.GPSInfo], [("pe", E(PositionError)), ("lon", S(25)), ("lat", S(24))],
+         lambda v: dict(position_error=PositionError(v["pe"]), longitude=v["lon"] * GPS_LON, latitude=v["lat"] * GPS_LAT),
+         lambda o: [o.position_error.value, gps_raw(o.longitude, GPS_LON), gps_raw(o.latitude, GPS_LAT)],
+         ["position_error", "longitude", "latitude"]),
+        ("talkerAliasHeader", [FLCOs.TalkerAliasHeader], [("fmt", E(TalkerAliasDataFormat)), ("len", U(5)), ("msb", B()), ("data", BYTES(6))],
+         lambda v: dict(talker_alias_data_format=TalkerAliasDataFormat(v["fmt"]), talker_alias_data_length=v["len"],
+                        talker_alias_data_msb=v["msb"], talker_alias_data=bytes.fromhex(v["data"])),
+         lambda o: [o.talker_alias_data_format.value, o.talker_alias_data_length, b01(o.talker_alias_data_msb), shex(o.talker_alias_data)],
+         ["talker_alias_data_format", "talker_alias_data_length", "talker_alias_data_msb", "talker_alias_data"]),
+        ("talkerAliasBlock", [FLCOs.TalkerAliasBlock1, FLCOs.TalkerAliasBlock2, FLCOs.TalkerAliasBlock3],
+         [("flco", E(FLCOs, [FLCOs.TalkerAliasBlock1, FLCOs.TalkerAliasBlock2, FLCOs.TalkerAliasBlock3])), ("data", BYTES(7))],
+         lambda v: dict(talker_alias_data=bytes.fromhex(v["data"])),
+         lambda o: [o.full_link_control_opcode.value, shex(o.talker_alias_data)],
+         ["talker_alias_data"]),
+    ]
+    by_op = {}
+    for t in table:
+        for op in t[1]:
+            by_op[op] = t
+
+    def fmt(o, crc=None):
+        t = by_op[o.full_link_control_opcode]
+        return " ".join([b01(o.protect_flag), str(o.feature_set_id.value), sbits(o.crc), t[0], ",".join(str(x) for x in t[4](o))])
+
+    def extra(o):
+        t = by_op.get(o.full_link_control_opcode)
+        if t is None:
+            return None
+        d = attrs(FullLinkControl(protect_flag=0, flco=o.full_link_control_opcode, fid=o.feature_set_id, crc=o.crc))
+        a = attrs(o)
+        keep = set(t[5]) | {"protect_flag", "full_link_control_opcode", "feature_set_id", "crc"}
+        bad = [x for x in a if x not in keep and a[x] != d.get(x)]
+        return ("non-default unrelated attributes " + ",".join(bad)) if bad else None
+
+    k = Kind("flc", None, FullLinkControl.from_bits, fmt, errors=["ValueError", "KeyError"], extra_check=extra)
+    for name, ops, fields, kw, _a, _n in table:
+        def build(v, ops=ops, kw=kw):
+            flco = FLCOs(v["flco"]) if "flco" in v else ops[0]
+            return FullLinkControl(protect_flag=v["pf"], flco=flco, fid=FeatureSetIDs(v["fid"]), crc=bitarray(v["crc"]), **kw(v))
+
+        k.variants.append(Variant(k, name, hdr + fields, build, length=lambda v: 72 + len(v["crc"])))
+    ops = [op.value for op in by_op]
+
+    def seeds(rng):
+        n = 96 if rng.random() < 0.6 else 77
+        b = int2ba(rng.getrandbits(n), length=n)
+        r = rng.random()
+        if r < 0.8:
+            b[2:8] = int2ba(rng.choice(ops), length=6)
+        elif r < 0.9:
+            b[2:8] = int2ba(rng.choice([m.value for m in FLCOs]), length=6)
+        return b
+
+    k.bit_seeds = seeds
+    return k
+
+
+def mk_slc_kind():
+    from okdmr.dmrlib.etsi.layer2.pdu.short_link_control import ShortLinkControl
+    from okdmr.dmrlib.etsi.layer2.elements.slcos import SLCOs
+    from okdmr.dmrlib.etsi.layer3.elements.activity_id import ActivityID
+
+    def fmt(o, crc=None):
+        c = sbits(o.crc_8bit) if crc is None else sbits(crc)
+        if o.slco == SLCOs.NullMessage:
+            return f"{c} null -"
+        return f"{c} activity {o.ts1_activity_id.value},{o.ts2_activity_id.value},{sbits(o.ts1_address)},{sbits(o.ts2_address)}"
+
+    def extra(o):
+        if o.slco == SLCOs.NullMessage:
+            d = attrs(ShortLinkControl(slco=SLCOs.NullMessage, crc_8bit=1))
+            a = attrs(o)
+            bad = [x for x in a if x not in ("slco", "crc_8bit") and a[x] != d.get(x)]
+            return ("non-default unrelated attributes " + ",".join(bad)) if bad else None
+        return None
+
+    k = Kind("slc", 36, ShortLinkControl.from_bits, fmt, errors=["KeyError", "ValueError"], extra_check=extra)
+    k.variants = [
+        Variant(k, "null", [("crc", BITS(8))], lambda v: ShortLinkControl(slco=SLCOs.NullMessage, crc_8bit=bitarray(v["crc"]))),
+        Variant(k, "activity", [("crc", BITS(8)), ("t1", E(ActivityID)), ("t2", E(ActivityID)), ("a1", BITS(8)), ("a2", BITS(8))],
+                lambda v: ShortLinkControl(slco=SLCOs.ActivityUpdate, crc_8bit=bitarray(v["crc"]), ts1_activity_id=ActivityID(v["t1"]),
+                                           ts2_activity_id=ActivityID(v["t2"]), ts1_address=bitarray(v["a1"]), ts2_address=bitarray(v["a2"]))),
+    ]
+
+    def seeds(rng):
+        b = int2ba(rng.getrandbits(36), length=36)
+        if rng.random() < 0.8:
+            b[0:4] = int2ba(rng.choice([0, 1]), length=4)
+        if rng.random() < 0.2:
+            b[28:36] = 0
+        return b
+
+    k.bit_seeds = seeds
+    k.n_bits = (1200, 60000)
+    return k
+
+
+def mk_pi_kind():
+    from okdmr.dmrlib.etsi.layer2.pdu.pi_header import PIHeader
+
+    k = Kind("pi", 96, PIHeader.from_bits, lambda o, crc=None: f"{shex(o.data)} {o.crc}", errors=[])
+    k.variants = [Variant(k, "pi", [("data", BYTES(10)), ("crc", U(16))], lambda v: PIHeader(data=bytes.fromhex(v["data"]), crc=v["crc"]))]
+    k.bit_seeds = lambda rng: int2ba(rng.getrandbits(96), length=96)
+    k.n_bits = (800, 40000)
+    return k
+
+
+RATE_TYPES = ["unconfirmed", "confirmed", "unconfirmedLast", "confirmedLast"]
+
+
+def mk_rate_kinds():
+    from okdmr.dmrlib.etsi.layer2.pdu.rate12_data import Rate12Data, Rate12DataTypes
+    from okdmr.dmrlib.etsi.layer2.pdu.rate34_data import Rate34Data, Rate34DataTypes
+    from okdmr.dmrlib.etsi.layer2.pdu.rate1_data import Rate1Data, Rate1DataTypes
+
+    out = []
+    for cname, cls, T, total in (("12", Rate12Data, Rate12DataTypes, 12), ("34", Rate34Data, Rate34DataTypes, 18), ("1", Rate1Data, Rate1DataTypes, 24)):
+        members = {"unconfirmed": T.Unconfirmed, "confirmed": T.Confirmed, "unconfirmedLast": T.UnconfirmedLastBlock,
+                   "confirmedLast": T.ConfirmedLastBlock, "undefined": T.Undefined}
+        for tname in RATE_TYPES + ["undefined"]:
+            member = members[tname]
+            fmt = lambda o, crc=None: f"{shex(o.data)} {o.dbsn} {o.crc9} {o.crc32}"
+            k = Kind(f"rate{cname}.{tname}", 8 * total, (lambda b, cls=cls, member=member: cls.from_bits_typed(b, member)), fmt, errors=[],
+                     dec_line=(lambda s, cname=cname, tname=tname: f"rate.dec {cname} {tname} {s}"))
+            k.bit_seeds = lambda rng, total=total: (
+                (lambda b: (b.__setitem__(slice(7, 16), 0), b)[1] if rng.random() < 0.15 else b)(int2ba(rng.getrandbits(8 * total), length=8 * total)))
+            k.n_bits = (250, 12000)
+            if tname != "undefined":
+                dl = member.value
+                fields = [("data", BYTES(dl))]
+                if tname in ("confirmed", "confirmedLast"):
+                    fields += [("dbsn", U(7)), ("crc9", U(9))]
+                if tname in ("unconfirmedLast", "confirmedLast"):
+                    fields += [("crc32", U(32))]
+
+                def build(v, cls=cls, member=member):
+                    return cls(data=bytes.fromhex(v["data"]), packet_type=member, dbsn=v.get("dbsn", 0), crc9=v.get("crc9", 0), crc32=v.get("crc32", 0))
+
+                k.variants = [Variant(k, tname, fields, build)]
+                k.enc_line = (lambda p, v, cname=cname, tname=tname:
+                              f"rate.enc {cname} {tname} {v['data'] or '-'} {v.get('dbsn', 0)} {v.get('crc9', 0)} {v.get('crc32', 0)}")
+                k.enc_out = lambda p, bits: f"{p.crc9} {sbits(bits)}"
+                k.rate = (cname, tname, members)
+            out.append(k)
+    return out
+
+
+def mk_udp_kind():
+    from okdmr.dmrlib.etsi.layer3.pdu.udp_ipv4_compressed_header import UDPIPv4CompressedHeader as H
+    from okdmr.dmrlib.etsi.layer3.elements.ip_address_identifier import IPAddressIdentifier
+    from okdmr.dmrlib.etsi.layer3.elements.udp_port_identifier import UDPPortIdentifier
+
+    port_members = {m.value: m for m in UDPPortIdentifier}
+
+    def fmt(o, crc=None):
+        e = lambda x: "-" if x is None else str(x)
+        return " ".join(str(x) for x in [o.ipv4_identification, o.source_ip_address_id.value, o.destination_ip_address_id.value,
+                                         o.udp_source_port_original, o.udp_source_port_id.value, o.udp_destination_port_original,
+                                         o.udp_destination_port_id.value, e(o.extended_header_1), e(o.extended_header_2), sbits(o.user_data)])
+
+    k = Kind("udp", None, H.from_bits, fmt, errors=["AssertionError"])
+    base = [("id", U(16)), ("sip", E(IPAddressIdentifier)), ("dip", E(IPAddressIdentifier)), ("ud", VBITS(80)), ("as_member", B())]
+
+    def build(v):
+        sp, dp = v.get("sp", 0), v.get("dp", 0)
+        if v["as_member"]:
+            sp = port_members.get(sp, sp)
+            dp = port_members.get(dp, dp)
+        return H(ipv4_identification=v["id"], source_ip_address_id=IPAddressIdentifier(v["sip"]), destination_ip_address_id=IPAddressIdentifier(v["dip"]),
+                 udp_source_port_id=sp, udp_destination_port_id=dp, user_data=bitarray(v["ud"]),
+                 extended_header_1=v.get("e1"), extended_header_2=v.get("e2"))
+
+    ln = lambda v: 40 + 16 * (("e1" in v) + ("e2" in v)) + len(v["ud"])
+    k.variants = [
+        Variant(k, "ext0", base + [("sp", UNZ(7)), ("dp", UNZ(7))], build, length=ln),
+        Variant(k, "ext1s", base + [("dp", UNZ(7)), ("e1", U(16))], build, length=ln),
+        Variant(k, "ext1d", base + [("sp", UNZ(7)), ("e1", U(16))], build, length=ln),
+        Variant(k, "ext2", base + [("e1", U(16)), ("e2", U(16))], build, length=ln),
+    ]
+
+    def seeds(rng):
+        n = rng.choice([40, 41, 47, 55, 56, 57, 64, 71, 72, 73, 96, 120, rng.randrange(0, 130)])
+        b = int2ba(rng.getrandbits(n), length=n) if n else bitarray()
+        if n >= 40:
+            if rng.random() < 0.5:
+                b[25:32] = 0
+            if rng.random() < 0.5:
+                b[33:40] = 0
+        return b
+
+    k.bit_seeds = seeds
+    k.n_bits = (3000, 100000)
+    return k
+
+
 def kinds():
-    return [mk_so_kind(), mk_csbk_kind()]
+    return [mk_so_kind(), mk_csbk_kind(), mk_dh_kind(), mk_flc_kind(), mk_slc_kind(), mk_pi_kind()] + mk_rate_kinds() + [mk_udp_kind()]
 
 
 # ------------------------------------------------------------------------------------------------
@@ -526,7 +908,8 @@ CORPUS = [
     ("csbk", "nackRsp", {"lb": 1, "pf": 0, "fid": 0, "crc": 0, "aif": 1, "st": 0, "svc": 5, "rc": 33, "src": 1, "tgt": 16777215}),
     ("csbk", "aloha", {"lb": 0, "pf": 0, "fid": 0, "crc": 0, "tsccas": 1, "sync": 0, "dvc": 3, "off": 0, "act": 1, "mask": 21, "sf": 2,
                        "nrand": 7, "reg": 1, "backoff": 5, "sys": 48879, "tgt": 2623266}),
-    ("dh", "response", {"A": 1}),
+    ("dh", "response", {"A": 1, "crc": "0000000000000000"}),
+    ("dh", "response", {"A": 0, "crc": "0000000000000000"}),
 ]
 
 
@@ -578,8 +961,8 @@ def run(ctx):
     # ---- per kind
     for k in ks.values():
         enc_pairs = []
-        n_random = ctx.budget(60, 3000)
-        reps = ctx.budget(1, 12)
+        n_random = ctx.budget(200, 3000)
+        reps = ctx.budget(2, 12)
         for var in k.variants:
             first = True
             for fname, spec in var.fields:
@@ -599,7 +982,7 @@ def run(ctx):
             ctx.correspond(f"{k.name}.enc", enc_pairs)
         # decode side
         dec_pairs = []
-        n_bits = (ctx.budget(*k.n_bits) if k.n_bits else ctx.budget(1500, 150000)) if k.length is None or k.length > 8 else 256
+        n_bits = (ctx.budget(*k.n_bits) if k.n_bits else ctx.budget(3000, 150000)) if k.length is None or k.length > 8 else 256
         seen = set()
         seeds = []
         if k.length == 8:
